@@ -16,6 +16,7 @@ for meta in sorted(glob.glob(os.path.join(V, "seeded", "*", "meta.json"))):
         print("%-50s (recorded as not caught / not confirmed: skipped)" % name)
         continue
     chk = m["caught_by"][0]
+    tier = ((m.get("checks") or {}).get(chk) or {}).get("tier", "quick")
     wt = "/tmp/sens-%s" % name
     subprocess.run(["git", "-C", "/repo", "worktree", "remove", "--force", wt], capture_output=True)
     subprocess.run(["git", "-C", "/repo", "worktree", "add", "-q", "--detach", wt, "HEAD"], check=True)
@@ -27,9 +28,9 @@ for meta in sorted(glob.glob(os.path.join(V, "seeded", "*", "meta.json"))):
             continue
         env = dict(os.environ, VERIF_REPO=wt)
         env.pop("PYTHONHASHSEED", None); env.pop("VERIF_REEXEC", None)
-        p = subprocess.run(["/venv/bin/python", os.path.join(V, "run_check.py"), chk, "--tier", "quick"], env=env, capture_output=True, text=True, cwd=V)
+        p = subprocess.run(["/venv/bin/python", os.path.join(V, "run_check.py"), chk, "--tier", tier], env=env, capture_output=True, text=True, cwd=V)
         ok = p.returncode == 1 and "VIOLATION property=%s" % chk in p.stdout
-        print("%-50s %s -> exit %d %s" % (name, chk, p.returncode, "caught" if ok else "NOT CAUGHT"))
+        print("%-50s %s (%s) -> exit %d %s" % (name, chk, tier, p.returncode, "caught" if ok else "NOT CAUGHT"))
         bad += 0 if ok else 1
     finally:
         subprocess.run(["git", "-C", "/repo", "worktree", "remove", "--force", wt], capture_output=True)
